@@ -52,6 +52,16 @@ def pre(rep):
                                      "allow_list_lines": gw["allow_lines"], "not_allowed": len(bad),
                                      "unused_allow_lines": gw.get("unused_allow_lines") or []}
 
+    multi = gw.get("resume_stack_not_single_key") or []
+    cov["global_write_inventory"]["resume_stack_constructions"] = gw.get("resume_stack_constructions")
+    for st in multi[:4]:
+        rep.violation({"property": "C15",
+                       "broken": "a tree.ResumeStack is built with more than one key (or by make/conversion): ResumeStack.Unpack "
+                                 "returns whichever entry Go's randomised map iteration visits first (C15_site_unpack_multi_refuted); "
+                                 "theorem C15_resume_stacks_single_key fails",
+                       "site": "%s:%d" % (st["file"], st["line"]), "keys": st["keys"]},
+                      name="resumestack-%s-%d" % (st["file"].replace("/", "_"), st["line"]), no_input=True)
+
     # report the uncovered sites at the end, when we know whether the runtime
     # streams (concurrent / history / race) produced a concrete failing input
     if bad:
@@ -103,16 +113,17 @@ SPEC = {
         "tools/globalwrites is a SYNTACTIC inventory (go/parser scope resolution): writes through aliases (a global map/slice/pointer passed to or returned from a function and mutated there, e.g. the in-place computed-value write fixed by the backgroundImage commit) are not seen; init() bodies and helpers called only from init() are not distinguished; the link between `readonly` in Draw/Determinism.v and this list is by reading, not by proof",
         "tools/globalwrites/allow.txt (24 reviewed lines: log.Logger, regexp.Regexp, strings.Replacer are documented goroutine-safe; the hyphenation cache is mutex-protected and stores a pure function of embedded data)",
         "the trace digest is SHA-256 truncated to 64 bits per section (a collision would hide a difference)",
-        "recording backend verifharness/vlib/render (what it records is the observable); fonts Ahem + weasyprint.otf from /repo/resources_test; pango engine",
+        "recording backend verifharness/vlib/render (what it records is the observable); fonts Ahem + weasyprint.otf from /repo/resources_test; pango engine for 5 of 6 documents, go-text for the rest",
         "Go race detector (dynamic: reports only races that occur on the executed schedules)",
         "/repo hook html/layout/verif_export_c15.go (VerifBrokenMapRun drives the unexported brokenOutOfFlowMap)",
+        "C15_resume_stacks_single_key covers composite literals, make() and conversions of tree.ResumeStack; that no code adds a key by an index store (stack[k] = v) is by grep, not by the translator (it has no types)",
         "external functions of the site models are Section variables: computedFromCascaded, GetAnchor, ParseAgain's text, floatLayout/absoluteBoxLayout (`place`); sort.Strings is assumed to sort",
     ],
     "not_modelled": [
         "data-race freedom itself (a memory-model property): covered only by the -race runs, labelled runtime evidence",
         "map-iteration sites other than the modelled ones (anchors per page, pseudo-element styles, SVG cascade/inherit/use, string-set & bookmark pass, brokenOutOfFlow, ResumeStack.Unpack): covered only by the whole-trace comparisons",
         "whether multi-key ResumeStacks ever reach Unpack in a layout (Unpack on such a stack IS order-dependent: C15_site_unpack_multi_refuted); no generated document showed a trace difference",
-        "gotext text engine, raster images, attachments, remote resources",
+        "attachments, remote (http) resources, raster formats other than a 1x1 PNG data URL",
     ],
     "codes": {"1": "the same document rendered again in the same process gave a different trace",
               "3": "the same document gave a different trace in another fresh process",
@@ -132,7 +143,7 @@ SPEC = {
         "unpack": "C15_unpack_result_is_an_entry / C15_site_perm_invariant_unpack_single",
         "omap": "C15_ordered_map_dict_semantics / C15_site_perm_invariant_brokenOutOfFlow",
     },
-    "rule": "corpus/C15/*.json first, then SplitMix64-seeded paginated documents (many ids per page, internal/external/dangling links, ::before/::after/::marker, floats and abspos broken across pages, counters, target-counter/target-text, string-set, running elements, bookmarks, inline SVG with many attributes, hyphens:auto in 4 languages, tables, flex, columns, gradients with em stops from a shared pool of user stylesheets); every document: 5 renders in one process, 2-3 fresh processes with different predecessors, 1 concurrent render in a batch of 8, sequential renders late in the harness process; plus Unpack calls and random histories on brokenOutOfFlowMap; non-trivial = document renders with > 50 backend events / multi-op history; distinct by document and comparison kind",
+    "rule": "corpus/C15/*.json first, then SplitMix64-seeded paginated documents (many ids per page, internal/external/dangling links, ::before/::after/::marker, floats and abspos broken across pages, counters, target-counter/target-text, string-set, running elements, bookmarks, inline SVG with many attributes, hyphens:auto in 4 languages, tables, flex, columns, data-URL PNG/SVG images, gradients with em stops from a pool of user stylesheets parsed once per process and shared between renders); every document: 5 renders in one process, 2-3 fresh processes with different predecessors, 1 concurrent render in a batch of 8, sequential renders late in the harness process; plus Unpack calls and random histories on brokenOutOfFlowMap; non-trivial = document renders with > 50 backend events / multi-op history; distinct by document and comparison kind",
 }
 MANIFEST = {
     "text": "Coq theorems: permutation-invariance of each modelled Go-map iteration site (anchors per page after sort = canonical-order lemma; pseudo-element styles, SVG attribute cascade, string-set/bookmark pass via a commutation lemma for folds over independent keys; insertion-ordered brokenOutOfFlow map), refutation witnesses for the two sites that were order-sensitive on the pinned tree (repaired in /repo) and for Unpack on multi-key stacks, and non-interference of N interleaved renders under the hypothesis that no step writes a global, which a source translator re-discharges syntactically on every run (globals_readonly by vm_compute over the generated write-site list). Tie: full backend traces of generated documents compared across repeats, fresh processes, concurrent-vs-sequential and histories; anchors and ordered-map histories evaluated against the model; race-detector runs.",
